@@ -46,7 +46,8 @@ def kernel(w, rep, fn, true_name="labels", pred_name="preds"):
             inner, ilid, conds = d[2][0]
             if inner[0] == "call" and inner[1] == ("builtin", "zip") and len(inner[2]) == 2 \
                     and is_labels(inner[2][0], true_name) and is_labels(inner[2][1], pred_name):
-                t0, t1 = ("iterproj", inner, ilid, (0,)), ("iterproj", inner, ilid, (1,))
+                pos = ("iterproj", inner, ilid, ("pos",))
+                t0, t1 = ("idx", inner[2][0], pos), ("idx", inner[2][1], pos)
                 if d[1] == ("tuple", (t0, t1)) and conds == (("cmp", "!=", *sorted([t0, t1], key=repr)),):
                     good.append((li, True))
     rep.fn("KERNEL-zip", fn, "one pass over zip(true labels, predictions)", len(good) == 1,
@@ -54,7 +55,11 @@ def kernel(w, rep, fn, true_name="labels", pred_name="preds"):
     if len(good) != 1:
         return None
     li, pre = good[0]
-    return li, ("iterproj", li.domain, li.lid, (0,)), ("iterproj", li.domain, li.lid, (1,)), pre
+    if pre:
+        # iterating the list of (l, p) pairs: the loop targets are projections of its elements
+        return li, ("iterproj", li.domain, li.lid, (0,)), ("iterproj", li.domain, li.lid, (1,)), pre
+    pos = ("iterproj", li.domain, li.lid, ("pos",))
+    return li, ("idx", li.domain[2][0], pos), ("idx", li.domain[2][1], pos), pre
 
 
 def n_class_ok(t, true_name="labels"):
